@@ -102,6 +102,7 @@ class Verifier:
             ex = getattr(c, 'exec_class', self.ExecClass)(self.reg, module_globals(qualname), qualname, c)
             ex.loop_ords = loops_of(node)
             ex.fn_node = node
+            ex.top_contract = c        # (ex.contract changes while a helper is executed in place)
             missing = [k for k in (getattr(c, 'loops', None) or {}) if k not in ex.loop_ords]
             if missing:
                 return [Obl(oid + '/loops', qualname, status=STALE,
